@@ -39,13 +39,13 @@ pub fn main() {
         return;
     }
     let groups: Vec<&str> = if group == "all" { vec!["arith", "pointer_text", "name_lookup", "descendant", "selectors", "regex", "cmp_struct", "requery", "e2e"] } else { group.split(',').collect() };
-    // termination watchdog: an evaluation of the real code that runs longer than 120 s (wall clock; generous, so that a
+    // termination watchdog: an evaluation of the real code that runs longer than 300 s (wall clock; generous, so that a
     // heavily loaded machine cannot fake one) is reported as a hang
     std::thread::spawn(|| loop {
         std::thread::sleep(std::time::Duration::from_millis(500));
         let cur = checks::CUR.lock().unwrap().clone();
         if let Some((g, what, t0)) = cur {
-            if t0.elapsed().as_secs() >= 120 {
+            if t0.elapsed().as_secs() >= 300 {
                 println!("{}", serde_json::json!({"hang": {"group": g, "evaluation": what, "seconds": t0.elapsed().as_secs()}}));
                 std::process::exit(3);
             }
